@@ -156,3 +156,8 @@ def run(db, ctx):
     from . import C04
     common.shared_rule(db, ctx, C04.lookahead_rules, 'R3.8', 'the look-ahead rows and the row count Scanner::max relies on (configure_wrap / configure bookkeeping) '
                        '— shared with R4.5 / R4.8', ['R4.5', 'R4.8'])
+    # the cells the scanner rescues from a block are those Threshold::threshold lists: it must list every cell >= the byte threshold
+    # (seed C03-7: `>` drops the cells equal to it — saturated windows at threshold = max_score, and accept-all thresholds)
+    from . import C07
+    common.shared_rule(db, ctx, C07.r75, 'R3.9', 'Threshold::threshold lists every cell of the block whose 8-bit score is >= the byte threshold, '
+                       'all rows and all C columns, with the position it stands for (shared with R7.5)', ['R7.5'])
